@@ -390,7 +390,12 @@ func (e *Engine) VerifyFunc(prop, key string) (rep *FuncReport, obls []*Obligati
 	fc.loadAxioms()
 	fc.loadLemmas()
 	fc.run()
+	var inl []string
 	for k := range fc.inlined {
+		inl = append(inl, k)
+	}
+	sort.Strings(inl) // the hash must not depend on map iteration order
+	for _, k := range inl {
 		rep.Inlined = append(rep.Inlined, shortPkg(k))
 		// inlined callee sources join the caller's hash
 		if cfi := e.funcs[k]; cfi != nil {
